@@ -11,7 +11,7 @@ from ..terms import A, C, F, V, call, conj, TRUE, CUT, show_program, show_term
 ID = 'C08'
 LEVEL = 'model_checking'
 RULE = ('every history of depth <= D over 26 events (load of a script S9 that defines predicates named like API functions; load of a self-recursive predicate S7 whose base case comes from another script S8 or from a dynamic fact; 17 + start / step / close of a call p(X) that stays suspended across the other events and must keep the resolution it had when it was made), from the empty engine and from 4 non-initial states (combined definitions, a Python predicate plus a script, facts between two loads, the recursive script), plus a 12-event core one step deeper, plus the full alphabet from the empty engine with every script loaded through load_script_from_file from ONE path that is rewritten before each load, plus the full alphabet (from the state Python p/1 + S1) with every Python predicate registered as a callable OBJECT that is false in a boolean context, plus the full alphabet with the suspended call made as a META-call (call(p(X)) from the empty engine, call(p, X) from the state with facts between two loads) - resolved when made like any call, plus the full alphabet from the empty engine in a process that turns warnings into errors: register_function for p with inferred / explicit (p/2) / variadic '
-        'arity and for q/1; (plus the ORDER family: 0..2 facts x 4 shapes of definition - generator function, plain function returning an iterator, plain function returning a generator, callable object - x 5 effects of calling it x 3 registrations x 3 ways of asking x 3 ways of consuming x bound/unbound argument: the facts are answered before the definition is started, a call closed after a fact answer never starts it) load of script S1 (p/1 facts), S2 (p/1 with a cut in its first clause), S3 (p/2 and q(X) :- '
+        'arity and for q/1; (plus loads under every tight stack: from 4 start states each of 4 scripts, overwrite on and off, under every recursion limit from the caller\'s depth to +39: raises and every answer is unchanged, or returns and the answers are the model\'s) (plus the ORDER family: 0..2 facts x 4 shapes of definition - generator function, plain function returning an iterator, plain function returning a generator, callable object - x 5 effects of calling it x 3 registrations x 3 ways of asking x 3 ways of consuming x bound/unbound argument: the facts are answered before the definition is started, a call closed after a fact answer never starts it) load of script S1 (p/1 facts), S2 (p/1 with a cut in its first clause), S3 (p/2 and q(X) :- '
         'p(X)), S6 (names that collide with context keys: once_1/0, once_1/1, p_n/1, call_n/0, foo_1/0 next to foo/1) each '
         'with overwrite on and off; load of a text that is not Python (S4) and of a text that defines p_1 and q_1 and then '
         'raises (S5); assert_fact p(x) and p(x,y); clear. Replayed on a fresh engine with a list-of-definitions model '
@@ -476,8 +476,81 @@ def order_case(case, caller_text):
     return ('ok', tuple(log))
 
 
+# ---- a load under every tight stack: all of the script or nothing ----------------------------------------------
+# From 4 start states, each script (overwrite on and off) is loaded under every recursion limit from the
+# caller's depth upwards: the load either raises - then EVERY answer is what it was before - or it returns -
+# then the answers are those of the model after the load.  (S10 defines a NEW predicate before one that exists.)
+S10 = [(F('fresh', A('s10')), TRUE), (F('p', A('s10')), TRUE), (F('q', A('s10')), TRUE)]
+LIMIT_SCRIPTS = ['S1', 'S2', 'S3', 'S10']
+
+
+def load_limit_cases():
+    idx = 0
+    for pi in (0, 1, 2, 3):
+        for sname in LIMIT_SCRIPTS:
+            for overwrite in (True, False):
+                yield idx, (pi, sname, overwrite)
+                idx += 1
+
+
+def check_load_limits(case, texts):
+    """-> list of violations (sig, detail), number of limits tried"""
+    import sys
+    pi, sname, overwrite = case
+    queries = QUERIES + [('fresh', 1)]
+
+    def build():
+        yp = impl.YP()
+        ref = Ref()
+        for ei in PREFIXES[pi]:
+            ev = EVENTS[ei]
+            do_impl(yp, ev, texts)
+            do_ref(ref, ev)
+        return yp, ref
+    yp, ref = build()
+    before = table_ref(ref, queries)
+    if sname == 'S10':
+        ref.consult(S10, overwrite)
+    else:
+        do_ref(ref, ('load', sname, overwrite))
+    after = table_ref(ref, queries)
+    depth = 0
+    f = sys._getframe()
+    while f is not None:
+        depth += 1
+        f = f.f_back
+    old = sys.getrecursionlimit()
+    bad = []
+    tried = 0
+    for lim in range(depth + 1, depth + 40):
+        yp, _ = build()
+        raised = None
+        try:
+            sys.setrecursionlimit(lim)
+            yp.load_script_from_string(texts[sname], fn=impl.SCRIPT_FN, overwrite=overwrite)
+        except RecursionError as e:
+            raised = e
+        except Exception as e:  # noqa: BLE001
+            raised = e
+        finally:
+            sys.setrecursionlimit(old)
+        tried += 1
+        got = table_impl(yp, queries)
+        want = before if raised is not None else after
+        if got != want:
+            what = 'prefix %s, then load(%s, overwrite=%s) under recursion limit %d (caller depth %d): ' % ([event_name(EVENTS[e]) for e in PREFIXES[pi]], sname, overwrite, lim, depth)
+            if raised is not None:
+                bad.append(('load-raised-but-changed-the-engine', what + 'the load raised %r, yet the answers changed from\n  %s\nto\n  %s' % (raised, show_table(before, queries), show_table(got, queries))))
+            else:
+                bad.append(('load-under-tight-stack:answers-differ', what + 'the load returned; answers\n  %s\nthe model gives\n  %s' % (show_table(got, queries), show_table(after, queries))))
+            break
+    return bad, tried
+
+
 def compile_scripts():
-    return {k: compile_cached(show_program(v)) for k, v in SCRIPTS.items()}
+    d = {k: compile_cached(show_program(v)) for k, v in SCRIPTS.items()}
+    d['S10'] = compile_cached(show_program(S10))
+    return d
 
 
 def plan(tier):
@@ -493,12 +566,29 @@ def plan(tier):
     sh += [(d, k, n, 2, 'all-objects') for k in range(n)]
     sh += [(d, k, n, 0, 'all-warnings-are-errors') for k in range(n)]
     sh += [(0, k, 4, 0, 'order') for k in range(4)]
+    sh += [(0, k, 8, 0, 'loadlimits') for k in range(8)]
     sh += [(d, k, n, 3, 'all-call/2') for k in range(n)] + [(d, k, n, 0, 'all-call/1') for k in range(n)]
     return sh
 
 
 def run_shard(spec):
     global LOAD_PATH
+    if spec[4] == 'loadlimits':
+        acc = Acc()
+        texts = compile_scripts()
+        for idx, case in load_limit_cases():
+            if idx % spec[2] != spec[1]:
+                continue
+            bad, tried = check_load_limits(case, texts)
+            acc.n['evaluations'] += tried
+            acc.n['validated'] += tried
+            acc.n['nontrivial'] += tried
+            acc.n['transitions'] += tried * 2
+            for sig, detail in bad:
+                acc.violation(sig, (0, 8, idx), {'load_limits': list(case)}, detail, key='loadlimits' + str(list(case)))
+            if not bad:
+                acc.outcome(('loadlimits', case[1], case[2]))
+        return acc
     if spec[4] == 'order':
         acc = Acc()
         caller = compile_cached(show_program(ORDER_CALLER))
@@ -594,6 +684,9 @@ def _run_shard(spec, via=None):
 
 def replay(case):
     global LOAD_PATH
+    if 'load_limits' in case:
+        bad, _ = check_load_limits(tuple(case['load_limits']), compile_scripts())
+        return bad
     if 'order_case' in case:
         r = order_case(tuple(case['order_case']), compile_cached(show_program(ORDER_CALLER)))
         return [(r[1], r[2])] if r[0] == 'violation' else []
